@@ -43,7 +43,7 @@ PROPS = {
         "design_ref": "DESIGN.md §4 C02",
         "rule": "case = generated task-set program(s); non-trivial = at least one barrier was checked over at least two tasks; distinct by full spec",
         "required_classes": ["TS", "CTSh", "CTSl", "pool0", "poolN", "owner-pool-task", "owner-external", "recursive", "multi-producer", "tryWait", "wait",
-                             "dtor-barrier", "future", "then", "when_all", "bulk", "fq", "parfor", "ring-overflow", "ran:waiter", "ran:worker", "wait-with-outstanding"],
+                             "dtor-barrier", "future", "then", "when_all", "bulk", "fq", "parfor", "ring-overflow", "inline-depth-cap", "inline-depth-cap:CTSh.schedule", "inline-depth-cap:CTSl.schedule", "inline-depth-cap:CTSl.bulk", "inline-depth-cap:CTSh.bulk", "inline-depth-cap:TS.schedule", "inline-depth-cap:TS.bulk", "tryWait0-polled", "ran:waiter", "ran:worker", "wait-with-outstanding"],
         "assumptions": _A,
         "runs": {
             "quick": [{"config": "plain", "shards": 16, "args": {"n": 480}}, {"config": "tsan", "shards": 16, "args": {"n": 64}}, {"config": "asan", "shards": 16, "args": {"n": 128}}],
